@@ -146,3 +146,12 @@ pub proof fn lemma_fl_facts(s: bool, w: int, b: int, xx: int)
     if 0 <= xx < p2(128) { lemma_small_mod(xx as nat, p2(128) as nat); }
     if -p2(127) <= xx < p2(127) { lemma_wrap_id(true, 128, xx); }
 }
+// equal fraction counts: the order of the values is the order of the bit patterns
+pub proof fn lemma_ord_same_frac(b1: int, b2: int, f: int)
+    requires f >= 0
+    ensures ord(b1, f, b2, f) == cmp_int(b1, b2)
+{
+    lemma_p2_pos(f);
+    let p = p2(f);
+    assert((b1 * p < b2 * p) == (b1 < b2) && (b1 * p == b2 * p) == (b1 == b2)) by (nonlinear_arith) requires p > 0;
+}
